@@ -36,4 +36,9 @@ CHECKS["C10"] = dict(level="exploration", technique="TLC-generated cubics constr
          "replays them at 5 binary scales with and without refinement, and TLC judges count, membership, multiplicity-aware accuracy "
          "and residual monotonicity of the refinement.",
     note="Tolerances eps^(1/m) with margin fixed a priori; integer roots only (off-lattice conditioning not explored).", ref="8/C10")
+CHECKS["C32"] = dict(level="exploration", technique="TLC-generated exhaustive small strings + reference definitions on sequences judged by TLC (Strings.tla)",
+    text="Reference definitions of split/join/replace/prefix/suffix and of the grammar and value of numeric strings are written on "
+         "sequences in TLA+ (with their own theorems checked by TLC); every string up to length 7-8 over small alphabets is replayed "
+         "through the real functions and TLC compares the results exactly.",
+    note="Exhaustive small scope; longer strings, other alphabets, empty string delimiters and start positions > 0 are not explored.", ref="8/C32")
 NOT_APPLICABLE = {}
